@@ -384,10 +384,119 @@ def r6(ctx, r):
     r.floor(3, "index coherence sites")
 
 
+def r7(ctx, r):
+    """Sockets are registered edge-triggered: a wake-up is the only notification for everything queued in the socket at that
+    moment.  So a receive loop may stop only on would-block / error / (connected socket) the zero-length event: after a positive
+    receive every path returns to the receive call."""
+    for name in ("readFromListener", "onClient"):
+        f = fn(ctx, name)
+        reads = calls(f, RECV)
+        if len(reads) != 1:
+            raise AnalysisBroken("%s: %d receive calls" % (name, len(reads)))
+        rd = reads[0]
+        nv = _result_var(f, rd)
+        if nv is None:
+            raise AnalysisBroken("%s: receive result not kept" % name)
+        vocab = Vocab(["npos"])
+
+        def leaf(n, nv=nv):
+            if n.get("k") == "bin" and n["op"] in (">", "<=", "<", "==", ">="):
+                l, rr = strip_casts(n["lhs"]), strip_casts(n["rhs"])
+                if l.get("k") == "var" and l["n"] == nv and const_value(rr) == 0 and rr.get("k") == "int":
+                    return {">": A("npos"), "<=": Not(A("npos")), "<": Not(A("npos")), "==": Not(A("npos")), ">=": None}[n["op"]]
+            return None
+
+        def eff(e, rd=rd):
+            if e is rd:
+                return [("set", "npos", True)]
+            return None
+        pa = PredAbs(f, vocab, leaf, eff, init=Not(A("npos")))
+        r.instance()
+        w = search(f, rd, "exit", stop=lambda x, rd=rd: x is rd or (x.kind == "stmt" and x.node.get("k") == "mcall" and last(x.node.get("callee", "")) == "closeNow"),
+                   eh=False, edge_ok=lambda b, si: pa.edge_feasible(b, si))
+        r.expect(w is None, f, rd, "%s: receive loop stops before would-block" % name,
+                 "after a datagram was received (n > 0) %s can leave the receive loop without receiving again: with edge-triggered epoll the datagrams still queued in the socket are not delivered "
+                 "until some later datagram causes a new edge — never, if the peer stays quiet" % name, witness=witness_str(f, w), okdesc="%s: n > 0 always returns to the receive call" % name)
+        # the sockets really are edge-triggered or the loop is the only reader: nothing else to check here
+
+
+CSIZE = {"unsigned short": 2, "in_port_t": 2, "in_addr": 4, "in6_addr": 16, "unsigned int": 4, "uint32_t": 4, "sa_family_t": 2, "unsigned char": 1, "char": 1}
+FAMILY_FIELDS = {"sockaddr_in": {"sin_port", "sin_addr"}, "sockaddr_in6": {"sin6_port", "sin6_addr"}}
+
+
+def r8(ctx, r):
+    """The peer index maps key(source address) to a session: two different (family, address, port) triples must never share a
+    key, or one peer's datagrams arrive on another peer's session.  Decided for the two ways the key can be built."""
+    f = fn(ctx, "key")
+    gni = [e for e in f.stmts() if e.node.get("k") == "call" and e.node.get("callee") == "getnameinfo"]
+    copies = [e for e in f.stmts() if e.node.get("k") in ("mcall", "call") and last(e.node.get("callee", "")) in ("assign", "append", "memcpy", "insert")
+              and any(x.get("k") == "un" and x.get("op") == "&" and (x.get("v") or {}).get("k") == "member" for a in e.node.get("args", []) for x in walk(a))]
+    r.instance()
+    if gni:
+        n = gni[0].node
+        a = n["args"]
+        flags = const_value(a[6]) if len(a) > 6 else None
+        sizes = [const_value(x) for x in (a[3], a[5])]
+        bufs = [strip_casts(a[2]), strip_casts(a[4])]
+        ok_bufs = all(b.get("k") == "var" for b in bufs) and all(sz and sz >= need for sz, need in zip(sizes, (46, 6)))
+        r.expect(flags is not None and (flags & 3) == 3, f, gni[0], "key: name lookup", "key() calls getnameinfo without NI_NUMERICHOST|NI_NUMERICSERV (flags %s): the key depends on resolver state, not on the address" % flags,
+                 okdesc="getnameinfo numeric host and service")
+        r.instance()
+        r.expect(ok_bufs, f, gni[0], "key: truncated text", "key() gives getnameinfo buffers of %s bytes: a numeric IPv6 host needs 46, a port 6" % sizes, okdesc="host/service buffers large enough")
+        # the address length handed in covers the whole sockaddr of the family
+        sl = strip_casts(a[1])
+        if sl.get("k") == "var":
+            for e in f.stmts():
+                if e.node.get("k") == "decl":
+                    for dv in e.node["vars"]:
+                        if dv["d"] == sl.get("d") and dv.get("init") is not None:
+                            sl = strip_casts(dv["init"])
+        r.instance()
+        lens = sorted(x.get("cv") for x in walk(sl) if x.get("k") == "sizeof" and x.get("cv"))
+        r.expect(lens == [16, 28] or lens == [128], f, gni[0], "key: address length", "the length given to getnameinfo is %s, expected sizeof(sockaddr_in)/sizeof(sockaddr_in6)" % lens, okdesc="salen = sizeof(sockaddr_in) : sizeof(sockaddr_in6)")
+        # both texts are part of the returned key
+        hn, sn = bufs[0].get("n"), bufs[1].get("n")
+        succ = [e for e in common.returns(f) if any(c.get("k") in ("call",) and c.get("callee") == "getnameinfo" and t for (c0, t) in __import__("iora_sa.finite", fromlist=["x"]).dominating_facts(f, e) for c in walk(c0))]
+        used = set()
+        for e in f.stmts():
+            if e.node.get("k") in ("decl", "mcall", "ctor", "opcall"):
+                for x in walk(e.node):
+                    if x.get("k") == "var" and x.get("n") in (hn, sn) and e.node.get("k") != "call":
+                        used.add(x["n"])
+        r.instance()
+        r.expect({hn, sn} <= used and bool(succ), f, gni[0], "key: host or port missing", "the key is built from %s only: peers that differ in the other part share a key" % (sorted(used) or "nothing"),
+                 okdesc="key = numeric host + ':' + numeric port")
+    elif copies:
+        covered = {}
+        for e in copies:
+            n = e.node
+            args = n.get("args", [])
+            src = next((x for a_ in args for x in walk(a_) if x.get("k") == "un" and x.get("op") == "&" and (x.get("v") or {}).get("k") == "member"), None)
+            ln = next((a_ for a_ in args if strip_casts(a_).get("k") in ("sizeof", "int")), None)
+            fld = src["v"]
+            rec, fname = fld["n"].rsplit("::", 1)
+            want = CSIZE.get(fld.get("t"))
+            if want is None:
+                raise AnalysisBroken("key(): size of %s (%s) not in the table" % (fld["n"], fld.get("t")))
+            got = const_value(ln) if ln is not None else None
+            r.instance()
+            r.expect(got == want, f, e, "key: %s truncated" % fname, "key() copies %s bytes of %s, which is %d bytes wide: addresses that differ only in the remaining bytes share a key and are folded into one session"
+                     % (got, fld["n"], want), okdesc="key: whole %s" % fname)
+            covered.setdefault(rec, set()).add(fname)
+        for rec, need in FAMILY_FIELDS.items():
+            r.instance()
+            r.expect(need <= covered.get(rec, set()), f, None, "key: %s fields missing" % rec, "key() does not include %s of %s" % (sorted(need - covered.get(rec, set())), rec),
+                     okdesc="key covers %s" % sorted(need))
+    else:
+        raise AnalysisBroken("UdpEngine::key: neither the getnameinfo form nor a raw field copy — shape not known to this rule")
+
+
 def run(ctx, ck):
     ck.run_rule("C06-R1", "one receive → exactly one data event with the whole payload; fresh buffer per datagram", "A5 ghost counting + A2", lambda r: r1(ctx, r))
     ck.run_rule("C06-R2", "one command → at most one datagram, sent whole; queued whole; flushed whole", "A5 + shape", lambda r: r2(ctx, r))
     ck.run_rule("C06-R3", "destination comes from the addressed session", "A10 dataflow shape", lambda r: r3(ctx, r))
     ck.run_rule("C06-R4", "delivery session is chosen by source address; accept path indexes before announcing", "A2 + dataflow shape", lambda r: r4(ctx, r))
     ck.run_rule("C06-R5", "peer-index entries are erased only by their owner", "A5 contradiction rule", lambda r: r5(ctx, r))
+    ck.run_rule("C06-R7", "receive loops drain the socket: after a datagram the loop always receives again (edge-triggered wake-ups)", "A5 + path search", lambda r: r7(ctx, r))
+    ck.run_rule("C06-R8", "the peer-index key is injective in (family, address, port)", "closed-form shape rule over key(): numeric getnameinfo of the whole address, or whole-field byte copies", lambda r: r8(ctx, r))
     ck.run_rule("C06-R6", "peer index and session table stay coherent", "A2 + A5", lambda r: r6(ctx, r))
